@@ -195,3 +195,66 @@ def ret_nop(c0, c1, c2, has):
 
 ob("C07", "K1.return_nop", {"c0": CP, "c1": CP, "c2": CP, "has": BOOL}, T=200, funcs=FUNCS[:1],
    bound="header with/without '-> int' and a trailing comment of ANY 3 code points; nothing to change")(ret_nop)
+
+
+# K5: the write-back of the whole command: the file is written once, after the rewrite succeeded; on error it is left byte-identical -----
+import atexit  # noqa: E402
+import os  # noqa: E402
+import shutil  # noqa: E402
+import tempfile  # noqa: E402
+
+_ROOT = tempfile.mkdtemp(prefix="chx_c07_")
+atexit.register(shutil.rmtree, _ROOT, True)
+_N = [0]
+CONVERTIBLE = ('# module level comment\n\n\ndef conv(a, b=5):\n    """\n    Do the thing\n\n    :param a: the a\n    :type a: ```int```\n\n    :param b: the b\n'
+               '    :type b: ```int```\n\n    :return: res\n    :rtype: ```str```\n    """\n    # a comment\n    return str(a + b)  # trailing\n')
+RAISERS = (  # second definitions on which the CST stage raises although the AST stage found work to do on `conv`
+    "\n\nclass Proto(object):\n    def meth(self, x):\n        ...\n",
+    "\n\ndef num(x):\n    5\n    return x\n",
+    "",  # none: the conversion succeeds
+)
+STYLES = ("rest", "google", "numpydoc")
+
+
+def error_leaves_file(raiser, style, type_annotations, no_word_wrap):
+    import contextlib
+    import io
+
+    from cdd.compound.doctrans import doctrans
+
+    src = CONVERTIBLE + RAISERS[0]
+    for k in (1, 2):
+        if raiser == k:
+            src = CONVERTIBLE + RAISERS[k]
+    fmt = STYLES[0]
+    for k in (1, 2):
+        if style == k:
+            fmt = STYLES[k]
+    _N[0] += 1
+    filename = os.path.join(_ROOT, "m%d.py" % _N[0])
+    with open(filename, "wt") as f:
+        f.write(src)
+    err = None
+    try:
+        with contextlib.redirect_stdout(io.StringIO()), contextlib.redirect_stderr(io.StringIO()):
+            try:
+                doctrans(filename=filename, docstring_format=fmt, type_annotations=type_annotations, no_word_wrap=True if no_word_wrap else None)
+            except Exception as e:
+                err = e
+        with open(filename, "rt") as f:
+            after = f.read()
+    finally:
+        os.remove(filename)
+    if err is not None:
+        if after != src:
+            return "the conversion failed with %s but the file was changed (%d bytes before, %d after)" % (type(err).__name__, len(src), len(after))
+        return ""
+    if "# module level comment" not in after or "# a comment" not in after or "# trailing" not in after:
+        return "a comment was lost by a successful conversion"
+    return ""
+
+
+ob("C07", "K5.error_leaves_file", {"raiser": R(0, 2), "style": R(0, 2), "type_annotations": BOOL, "no_word_wrap": BOOL}, T=900, tpath=120,
+   funcs=["cdd.compound.doctrans.doctrans", "cdd.compound.doctrans_utils.doctransify_cst", "cdd.compound.doctrans_utils.DocTrans"],
+   bound="cdd.compound.doctrans.doctrans on a scratch file (outside /repo and /verif) holding a convertible function plus a definition on which the CST stage "
+         "raises (stub body '...', bare number) or nothing; target style, --type-annotations, word-wrap: solver-enumerated. On error the file is byte-identical; on success the comments survive")(error_leaves_file)
